@@ -424,10 +424,10 @@ func propExplanation(prop string) string {
 
 func propAssumptions(prop string, db *ContractDB, assumed map[string]bool) []string {
 	out := []string{
-		"A-ENGINE: gocv's encoding of Go semantics is faithful (mitigated by replay and the must-fail corpus)",
+		"A-ENGINE: gocv's encoding of Go semantics is faithful (mitigated by the must-fail corpus of mutations and seeded changes and by replaying violations on the real code with the test batteries of replay/harness.json)",
 		"A-SOLVER: an unsat answer of any one of z3 4.8.12, z3 5.1.0, cvc5 1.0.3 is believed",
 		"A-TERM: termination is not proved",
-		"A-APPEND: append is modelled as reallocation (capacity sharing between slices is not modelled)",
+		"A-HEAP: one element/field map per SMT sort (slices of different Go element types with the same sort may alias in the model; contracts add non-aliasing preconditions where needed); append writes in place when capacity allows, else reallocates",
 		"A-INT: machine integers are mathematical integers with exact wrap-around for unsigned types; signed overflow is checked only where the contract says `overflow on`",
 	}
 	data, err := os.ReadFile(filepath.Join(verifRoot, "contracts", "ASSUME.json"))
